@@ -108,13 +108,22 @@ class _Suspender(Task):
         return TaskResult.suspend()
 
 
-def suspend_step(nbuf: int, v: int) -> bool:
+def suspend_step(nbuf: int, v: int, interfere: bool) -> bool:
     """
     pre: 0 <= v <= 1000
     post: _
     """
+    # A task suspends while nb persistent signals are buffered; optionally another persistent signal
+    # is handled right after that step (before anything the step queued).  Whatever the step queues
+    # for itself (nothing, or follow-up SignalStage messages) is then handled.  Representation-
+    # agnostic oracle: no persistent signal is lost or duplicated - exactly one of them has been
+    # delivered (stage RUNNING, one RunTask, payload intact) and the others are still buffered; with
+    # no signal at all the stage stays SUSPENDED with nothing queued.
+    from stabilize.queue.sqlite.serialization import deserialize_message
+
     with hx.Path("suspend_step") as P:
         nb = hx.pick(nbuf, 4)
+        inter = hx.decide(interfere)
         w = world2.SWorld(name="sus", json_stub=True)
         try:
             t = TaskExecution.create(name="t", implementing_class="sus", stage_start=True, stage_end=True)
@@ -130,26 +139,53 @@ def suspend_step(nbuf: int, v: int) -> bool:
             m = RunTask(execution_id=wf.id, stage_id=s.id, task_id=t.id, task_type="sus", created_at=_CREATED)
             m.message_id = "71"
             RunTaskHandler(w.queue, w.store, reg).handle(m)
+            sh = SignalStageHandler(w.queue, w.store)
+            if inter:
+                m2 = SignalStage(execution_id=wf.id, stage_id=s.id, signal_name="late", signal_data={"v": v + 50}, persistent=True, created_at=_CREATED)
+                m2.message_id = "72"
+                sh.handle(m2)
+            for _ in range(6):  # follow-up messages the step queued for itself
+                with hx.native():
+                    rows = [r for r in w.db.tables["queue_messages"] if r["message_type"] == "SignalStage"]
+                if not rows:
+                    break
+                r = rows[0]
+                fm = deserialize_message("SignalStage", r["payload"].obj if isinstance(r["payload"], symdb.JText) else r["payload"])
+                fm.message_id = str(r["id"])
+                sh.handle(fm)
+                with hx.native():
+                    w.db.tables["queue_messages"].remove(r)
             row = row_of(w, "stage_executions", s.id)
             trow = row_of(w, "task_executions", t.id)
             c = _obj(row["context"])
             msgs = _msgs(w)
-            with hx.native():
-                P.reached(nb)
-                info = {"buffered_before": nb, "stage": row["status"], "task": trow["status"], "messages": [x[0] for x in msgs]}
+            want = {"n%d" % i: v + i for i in range(nb)}
+            if inter:
+                want["late"] = v + 50
             buf = c.get("_buffered_signals") or []
-            if nb == 0:
+            with hx.native():
+                P.reached((nb, inter))
+                info = {"buffered_before": nb, "another_signal_right_after": inter, "stage": row["status"], "task": trow["status"], "messages": [x[0] for x in msgs],
+                        "delivered": c.get("_signal_name"), "still_buffered": [b.get("signal_name") for b in buf]}
+            if not want:
                 if row["status"] != "SUSPENDED" or trow["status"] != "SUSPENDED" or msgs:
                     return P.fail("C18/suspend_step/stage_not_left_waiting", info)
                 return True
             if row["status"] != "RUNNING" or trow["status"] != "RUNNING":
-                return P.fail("C18/suspend_step/buffered_signal_not_consumed", info)
+                return P.fail("C18/suspend_step/pending_signal_did_not_resume_the_stage", info)
             if [x[0] for x in msgs] != ["RunTask"] or msgs[0][1].get("task_id") != t.id:
-                return P.fail("C18/suspend_step/consumption_did_not_rerun_the_task_once", info)
-            if c.get("_signal_name") != "n0" or not (c.get("_signal_data") or {}).get("v") == v:
-                return P.fail("C18/suspend_step/not_the_oldest_buffered_signal_or_payload_differs", info)
-            if [b.get("signal_name") for b in buf] != ["n%d" % i for i in range(1, nb)]:
-                return P.fail("C18/suspend_step/buffer_not_reduced_by_exactly_the_consumed_signal", {**info, "buffer": [b.get("signal_name") for b in buf]})
+                return P.fail("C18/suspend_step/resume_did_not_rerun_the_task_exactly_once", info)
+            got = c.get("_signal_name")
+            if got not in want:
+                return P.fail("C18/suspend_step/delivered_signal_is_none_of_the_pending_ones", info)
+            if not (c.get("_signal_data") or {}).get("v") == want[got]:
+                return P.fail("C18/suspend_step/payload_differs", info)
+            rest = sorted(b.get("signal_name") for b in buf)
+            if rest != sorted(k_ for k_ in want if k_ != got):
+                return P.fail("C18/suspend_step/persistent_signal_lost_or_duplicated", {**info, "expected_still_buffered": sorted(k_ for k_ in want if k_ != got)})
+            for b in buf:
+                if not (b.get("signal_data") or {}).get("v") == want[b.get("signal_name")]:
+                    return P.fail("C18/suspend_step/buffered_payload_differs", info)
             return True
         finally:
             w.close()
@@ -159,7 +195,7 @@ PLAN = [("signal_step", "quick", 280), ("suspend_step", "quick", 200)]
 META = {
     "functions": ["src/stabilize/handlers/signal_stage.py:SignalStageHandler", "src/stabilize/handlers/run_task/handler.py:RunTaskHandler.handle", "src/stabilize/handlers/run_task/result.py:_handle_suspended"],
     "bounds": ["SignalStage from every stage status x persistent/transient x suspended task present or not x 0..2 signals already buffered, payload a symbolic int in [0,1000]",
-               "suspending task with 0..3 buffered signals, payloads symbolic"],
+               "suspending task with 0..3 buffered signals, optionally another persistent signal handled right after the step, follow-up messages of the step handled; payloads symbolic"],
     "stubs": ["SymDB instead of SQLite (validated differentially on every run)", "json.dumps/loads of the store replaced by an object-carrying stub", "task executor inline", "ids/clock stubs"],
     "assumptions": [],
 }
